@@ -368,14 +368,13 @@ Fixpoint blocks_aux (tr : list (Z * Z)) (depth : Z) (cur : list (Z * Z)) : list 
       let d := if fst x =? 1 then depth + 1 else depth - 1 in
       if d =? 0 then rev (x :: cur) :: blocks_aux r 0 [] else blocks_aux r d (x :: cur)
   end.
-Fixpoint dedup_blocks (seen l : list (list (Z * Z))) : list (list (Z * Z)) :=
-  match l with
-  | [] => []
-  | x :: r => if existsb (bkinds_eqb x) seen then dedup_blocks seen r else x :: dedup_blocks (x :: seen) r
-  end.
-(* a calibration evaluates the same pipeline an implementation-defined number of times: compare its
-   trace as the list of DISTINCT top-level blocks, in order of first appearance *)
-Definition collapse (tr : list (Z * Z)) : list (Z * Z) := List.concat (dedup_blocks [] (blocks_aux tr 0 [])).
+(* A calibration evaluates the same pipeline an implementation-defined number of times, and dask decides
+   itself in which order it runs the parameter sets of an observation: such traces are compared as the SET
+   of their top-level blocks. *)
+Definition same_blocks (a b : list (Z * Z)) : bool :=
+  let ba := blocks_aux a 0 [] in
+  let bb := blocks_aux b 0 [] in
+  forallb (fun x => existsb (bkinds_eqb x) bb) ba && forallb (fun x => existsb (bkinds_eqb x) ba) bb.
 
 (* ------------------------------------------------------------------ the free generator *)
 
@@ -432,7 +431,7 @@ Record item := {
   ob_pre : Z; ob_inner : list Z; ob_post : Z;
   ob_draws : list Z; ob_res : Z; ob_raised : bool;
   ob_aux : list Z;        (* calibration: task index whose seed island 0, 1, ... actually has *)
-  it_collapse : bool;     (* compare the bracket trace as its distinct top-level blocks (calibration) *)
+  it_collapse : bool;     (* compare the bracket trace as the set of its top-level blocks (calibration, dask) *)
   ob_trace : list bstep   (* np.random.seed / set_state calls seen during the item: thread, seed *) }.
 
 Section Renumber.
@@ -548,7 +547,7 @@ Definition trace_matches (it : item) : bool :=
   if it_run it then
     let m := map bkind (btrace (it_prog it)) in
     let o := map bkind (ob_trace it) in
-    if it_collapse it then bkinds_eqb (collapse m) (collapse o) else bkinds_eqb m o
+    if it_collapse it then same_blocks m o else bkinds_eqb m o
   else true.
 
 (* hypothesis of the single-thread theorems, checked on what was observed *)
